@@ -356,6 +356,13 @@ def fixed_pool():
         raise HarnessError('fresh-interpreter dummy reference failed: %s' %
                            out2.stderr[-2000:])
     refs['s:c15rec'] = json.loads(out2.stdout.strip().splitlines()[-1])
+    out3 = subprocess.run(
+        [sys.executable, '-W', 'ignore', '-m', 'vf.props.c15', '--ref-le',
+         d], capture_output=True, text=True, env=env)
+    if out3.returncode != 0:
+        raise HarnessError('fresh-interpreter little-endian reference '
+                           'failed: %s' % out3.stderr[-2000:])
+    refs['le:uamiv'] = json.loads(out3.stdout.strip().splitlines()[-1])
     for k in pool:
         pool[k]['ref'] = refs[k]
     _POOL[d] = pool
@@ -384,10 +391,17 @@ def _main_ref(d):
     for k, p in pool.items():
         libstate.reset()    # every reference is taken with an empty history
         refs[k] = probe(p)
-    libstate.reset()
-    refs['le:uamiv'] = probe(os.path.join(d, 'little_endian_uamiv.dat'),
-                             format='uamiv', endian='little')
     print(json.dumps(refs))
+
+
+def _main_ref_le(d):
+    """reference of the little-endian file in an interpreter of its own: it
+    is the FIRST file this process opens (an empty history in the strict
+    sense - state kept outside the registry, e.g. memoised header layouts,
+    cannot have been primed by a big-endian file)"""
+    libstate.check_repo()
+    print(json.dumps(probe(os.path.join(d, 'little_endian_uamiv.dat'),
+                           format='uamiv', endian='little')))
 
 
 def _main_ref_dummy(d):
@@ -735,3 +749,5 @@ if __name__ == '__main__':
         _main_ref(sys.argv[2])
     if len(sys.argv) == 3 and sys.argv[1] == '--ref-dummy':
         _main_ref_dummy(sys.argv[2])
+    if len(sys.argv) == 3 and sys.argv[1] == '--ref-le':
+        _main_ref_le(sys.argv[2])
